@@ -1,6 +1,10 @@
-/- line-protocol driver for C07: `drv_c07 <sub-command>` reads operations on stdin, prints one canonical line per operation.
+/- line-protocol driver for C07: `drv_c07 eval` reads operations on stdin, prints one canonical line per operation.
    Core Lean only (nothing imported here may import Mathlib, or the executable will not link). -/
+import ChibiVerif.Driver.ConstEvalCmd
 
 def main (args : List String) : IO UInt32 := do
-  IO.eprintln s!"drv_c07: no sub-commands yet (args {args})"
-  return 2
+  match args with
+  | "eval" :: _ => ChibiVerif.Driver.ConstEval.main
+  | _ =>
+    IO.eprintln "usage: drv_c07 eval"
+    return 2
